@@ -122,3 +122,194 @@ class _exact_for(Contract):
     @staticmethod
     def ensures(c):
         return [("is_exactq", c.result.t == exactq(c.query.t))]
+
+
+def _gsrc_inv(found, gsrc, A, items, t):
+    """found/gsrc built so far enumerate A ∩ [0,t) in storage order"""
+    a, b, i = z3.Int(fresh_name("a")), z3.Int(fresh_name("b")), z3.Int(fresh_name("i"))
+    n = l_len(gsrc)
+    return [
+        ("ghost_len", l_len(found) == n),
+        ("ghost_sound", forall([a], z3.Implies(z3.And(0 <= a, a < n), z3.And(0 <= l_at(gsrc, a), l_at(gsrc, a) < t, z3.Select(A, l_at(gsrc, a)),
+                                                                        l_at(found, a) == dec(l_at(items, l_at(gsrc, a))))),
+                               patterns=[l_at(gsrc, a), l_at(found, a)])),
+        ("ghost_ascending", forall([a, b], z3.Implies(z3.And(0 <= a, a < b, b < n), l_at(gsrc, a) < l_at(gsrc, b)), patterns=[z3.MultiPattern(l_at(gsrc, a), l_at(gsrc, b))])),
+        ("ghost_complete", forall([i], z3.Implies(z3.And(0 <= i, i < t, z3.Select(A, i), S.Tr(i)), z3.Exists([a], z3.And(0 <= a, a < n, l_at(gsrc, a) == i))),
+                                  patterns=[z3.Select(A, i)])),
+    ]
+
+
+@contract(_TF + "search")
+class _search(Contract):
+    """C01: search returns exactly the selected points, once each, in insertion order or stably time-sorted."""
+    params = dict(self=DB, query=Q, measurement=OStr, sorted=TBool)
+    defaults = dict(measurement=NONE_STR, sorted=lambda ex: mk_bool(True))
+    ret = LPt
+    modifies = ("_index",)
+    theories = ("queries", "dbqueries", "count", "count_lemmas")
+    raises = dict(READ_RAISES, ValueError=staticmethod(lambda c: dict(when=z3.Not(z3.Or(q_kind(c.query.t) == 0, q_kind(c.query.t) == 1)), exact=False)))
+    locals = dict(found_points=LPt, gsrc=LInt)
+    ghost_vars = ("gsrc",)
+    ghost_init = "gsrc = []"
+    ghost_after = [("found_points.append(self._storage", "gsrc.append(i)"), ("found_points.append(_point)", "gsrc.append(_t)")]
+    witness_sig = {"src": ([TInt], TInt)}
+
+    @staticmethod
+    def requires(c):
+        return dbinv(c.self) + _wfquery(c)
+
+    @staticmethod
+    def ghost_defs(c):
+        A, facts = selected_set(c.self, c.query, c.measurement)
+        return {"Asel": (A, facts)}
+
+    @staticmethod
+    def witness(c):
+        g = c.gsrc.t
+        ls = c.ghost.get("last_sort")
+        if ls is not None:
+            return {"src": lambda a: l_at(g, ls["pi"](a))}
+        return {"src": lambda a: l_at(g, a)}
+
+    @staticmethod
+    def lemmas(c):
+        return [("card_is_cnt", card_is_cnt(c.Asel.t, l_len(c.old.self.t["_storage"].t["items"].t)))]
+
+    @staticmethod
+    def ensures(c):
+        R = c.result.t
+        src = c.wit["src"]
+        items = c.old.self.t["_storage"].t["items"].t
+        order = z3.If(c.sorted.t, in_stable_time_order(R, src, l_len(R)), in_storage_order(src, l_len(R)))
+        return enumerates(R, src, c.Asel.t, items) + [("order", order)] + after_read(c) + storage_unchanged(c)
+
+    @staticmethod
+    def _inv_index(c):
+        I = c.index_rst.t["_items"].t
+        items = c.self.t["_storage"].t["items"].t
+        t = c.loop("for i, item in enumerate(self._storage)").t
+        x = z3.Int(fresh_name("x"))
+        return [("j_counts", z3.And(c.j.t == l_len(c.gsrc.t), c.j.t == cnt(c.Asel.t, t))),
+                ("index_answer_is_selection", I == c.Asel.t),
+                ] + _gsrc_inv(c.found_points.t, c.gsrc.t, c.Asel.t, items, t) + after_read(c)
+
+    @staticmethod
+    def _inv_scan(c):
+        items = c.self.t["_storage"].t["items"].t
+        t = c.loop("for item in self._storage").t
+        return _gsrc_inv(c.found_points.t, c.gsrc.t, c.Asel.t, items, t) + after_read(c)
+
+    loops = {
+        "for i, item in enumerate(self._storage)": dict(inv=lambda c: _search._inv_index(c)),
+        "for item in self._storage": dict(inv=lambda c: _search._inv_scan(c)),
+        "for fp in found_points": dict(inv=lambda c: []),
+    }
+
+
+OPt = TOpt(Pt)
+
+
+@contract(_TF + "get")
+class _get(Contract):
+    """C01: get returns the first selected point in insertion order, or None when nothing is selected."""
+    params = dict(self=DB, query=Q, measurement=OStr)
+    defaults = dict(measurement=NONE_STR)
+    ret = OPt
+    modifies = ("_index",)
+    theories = ("queries", "dbqueries", "count", "count_lemmas")
+    raises = READ_RAISES
+    locals = dict(got_point=OPt, gpos=TInt)
+    ghost_vars = ("gpos",)
+    ghost_init = "gpos = -1"
+    ghost_after = [("got_point = self._storage", "gpos = i"), ("got_point = _point", "gpos = _t")]
+    witness_sig = {"pos": ([], TInt)}
+
+    @staticmethod
+    def requires(c):
+        return dbinv(c.self) + _wfquery(c)
+
+    @staticmethod
+    def ghost_defs(c):
+        A, facts = selected_set(c.self, c.query, c.measurement)
+        return {"Asel": (A, facts)}
+
+    @staticmethod
+    def witness(c):
+        return {"pos": lambda: c.gpos.t}
+
+    @staticmethod
+    def ensures(c):
+        x = z3.Int(fresh_name("x"))
+        A = c.Asel.t
+        pos = c.wit["pos"]()
+        items = c.old.self.t["_storage"].t["items"].t
+        r = c.result.t
+        return [
+            ("none_iff_nothing_selected", o_is_none(r) == forall([x], z3.Not(z3.Select(A, x)), patterns=[z3.Select(A, x)])),
+            ("first_selected", z3.Implies(o_is_some(r), z3.And(z3.Select(A, pos), o_val(r) == dec(l_at(items, pos)),
+                                                              forall([x], z3.Implies(z3.And(0 <= x, x < pos), z3.Not(z3.Select(A, x))), patterns=[z3.Select(A, x)])))),
+        ] + after_read(c) + storage_unchanged(c)
+
+    @staticmethod
+    def _none_before(c, t):
+        x = z3.Int(fresh_name("x"))
+        got = c.got_point
+        isnone = o_is_none(got.t)
+        return [("nothing_found_yet", z3.And(isnone, forall([x], z3.Implies(z3.And(0 <= x, x < t), z3.Not(z3.Select(c.Asel.t, x))), patterns=[z3.Select(c.Asel.t, x)])))]
+
+    loops = {
+        "for i, item in enumerate(self._storage)": dict(inv=lambda c: _get._none_before(c, c.loop("for i, item in enumerate(self._storage)").t)
+                                                        + [("index_answer_is_selection", c.index_rst.t["_items"].t == c.Asel.t)] + after_read(c)),
+        "for item in self._storage": dict(inv=lambda c: _get._none_before(c, c.loop("for item in self._storage").t) + after_read(c)),
+    }
+
+
+@contract(_TF + "__len__")
+class _dblen(Contract):
+    """C07: len(db) is the number of stored points, from the index or from storage."""
+    params = dict(self=DB)
+    ret = TInt
+
+    @staticmethod
+    def requires(c):
+        return dbinv(c.self)
+
+    @staticmethod
+    def ensures(c):
+        return [("len_is_number_stored", c.result.t == l_len(c.self.t["_storage"].t["items"].t))]
+
+
+@contract(_TF + "all")
+class _all(Contract):
+    """C07/C01: all() returns every stored point, in insertion order or stably time-sorted."""
+    params = dict(self=DB, sorted=TBool)
+    defaults = dict(sorted=lambda ex: mk_bool(True))
+    ret = LPt
+    modifies = ("_index",)
+    raises = READ_RAISES
+    witness_sig = {"src": ([TInt], TInt)}
+
+    @staticmethod
+    def requires(c):
+        return dbinv(c.self)
+
+    @staticmethod
+    def witness(c):
+        ls = c.ghost.get("last_sort")
+        if ls is not None:
+            return {"src": lambda a: ls["pi"](a)}
+        return {"src": lambda a: a}
+
+    @staticmethod
+    def ensures(c):
+        R, src = c.result.t, c.wit["src"]
+        items = c.old.self.t["_storage"].t["items"].t
+        n = l_len(items)
+        a, b, i = z3.Int(fresh_name("a")), z3.Int(fresh_name("b")), z3.Int(fresh_name("i"))
+        order = z3.If(c.sorted.t, in_stable_time_order(R, src, n), in_storage_order(src, n))
+        return [
+            ("length", l_len(R) == n),
+            ("elements", forall([a], z3.Implies(z3.And(0 <= a, a < n), z3.And(0 <= src(a), src(a) < n, l_at(R, a) == dec(l_at(items, src(a))))), patterns=[l_at(R, a)])),
+            ("no_duplicates", forall([a, b], z3.Implies(z3.And(0 <= a, a < b, b < n), src(a) != src(b)), patterns=[z3.MultiPattern(src(a), src(b))])),
+            ("order", order),
+        ] + after_read(c) + storage_unchanged(c)
